@@ -318,4 +318,9 @@ HARNESSES.append(
             outside=["what the cloned objects contain (protobuf construction)", "add_sheet", "isolation between simultaneously open documents"],
             patches=[(modelmod, "TSTArchives", FAKE_TST3), (modelmod, "TSPMessages", FAKE_TSP3), (modelmod, "NumbersUUID", FakeUUID),
                      (modelmod, "field_references", no_refs)]))
+# "saving ... may be repeated, and the saved file reopens to the same grid": two consecutive saves of one open document
+# (string list reset and re-keying) - harness shared with C06
+from specs import c06 as _c06   # noqa: E402
+
+HARNESSES += [h for h in _c06.HARNESSES if h.name == "H06a-two-saves"]
 PROPERTY = "C03"
